@@ -320,6 +320,14 @@ type Link struct {
 	sess   [2]endpoint // current generation's ends (nil when down)
 	silent [2]bool     // silent[i]: messages sent by end i are swallowed
 	extra  time.Duration
+	held   bool // datagram links: everything handed over is kept until Release (a stalled path that later delivers)
+	heldQ  []heldMsg
+}
+
+type heldMsg struct {
+	s    *Session
+	data []byte
+	rec  *WireRec
 }
 
 type endpoint interface {
@@ -348,6 +356,41 @@ func (l *Link) SetSilent(dir0, dir1 bool) {
 	l.mu.Unlock()
 	l.w.Count("fault_silent", 1)
 	l.w.Event("link %s silent %v %v", l.Name, dir0, dir1)
+}
+
+// Hold makes a datagram link keep everything that is handed to it from now on, in both directions, without losing
+// or reordering it (a path that stalls).  Release lets it all through, in order, one link latency later.
+func (l *Link) Hold() {
+	l.mu.Lock()
+	l.held = true
+	l.mu.Unlock()
+	l.w.Count("fault_hold", 1)
+	l.w.Event("link %s holds its traffic", l.Name)
+}
+
+// Release ends a Hold.
+func (l *Link) Release() {
+	l.mu.Lock()
+	q := l.heldQ
+	l.heldQ, l.held = nil, false
+	l.mu.Unlock()
+	l.w.Event("link %s releases %d held messages", l.Name, len(q))
+	now := l.w.Now()
+	for _, h := range q {
+		if h.s.gen == l.curGen() {
+			h.s.scheduleFrom(now, h.data, l.Cfg.Latency, h.rec)
+		}
+	}
+}
+
+func (l *Link) hold(s *Session, data []byte, rec *WireRec) bool {
+	l.mu.Lock()
+	defer l.mu.Unlock()
+	if !l.held {
+		return false
+	}
+	l.heldQ = append(l.heldQ, heldMsg{s, data, rec})
+	return true
 }
 
 // SetExtraDelay adds a delay to every later message (delay-change fault).
@@ -619,6 +662,10 @@ func (s *Session) flush() {
 		rec := s.w.recordAt(it.at, s.l, s.gen, s.name, s.peer.name, it.data, fate)
 		switch fate {
 		case "silent", "drop":
+			continue
+		}
+		if s.l.hold(s, it.data, rec) {
+			s.w.Count("fate_held", 1)
 			continue
 		}
 		s.scheduleFrom(it.at, it.data, delay, rec)
